@@ -230,6 +230,38 @@ def run_mutant_for(mdir, prop, base_keys):
         shutil.rmtree(d, ignore_errors=True)
 
 
+def run_patch_all(pdir, props, base_keys_by_prop):
+    """Apply pdir/patch.diff to a scratch copy and run the rules of all `props`; returns the finding keys per property that
+    the unchanged tree does not have (used for the benign-refactor corpus: every such key is a false alarm)."""
+    d = _copy_repo(facts.REPO)
+    try:
+        r = subprocess.run(["patch", "-p1", "-s", "--no-backup-if-mismatch", "-i", os.path.join(pdir, "patch.diff")], cwd=d, stdout=subprocess.PIPE, stderr=subprocess.STDOUT, text=True)
+        if r.returncode != 0:
+            return {"error": "patch does not apply: " + r.stdout[-300:]}
+        try:
+            F, fd = facts.load("", repo=d)
+        except facts.ExtractionError as e:
+            return {"error": "does not compile: " + str(e)[-300:]}
+        c = MiniCtx(F, d)
+        new = {}
+        memo = {}
+        for prop in props:
+            ks = []
+            for rid in PROPS[prop]["rules"]:
+                if rid not in memo:
+                    try:
+                        memo[rid] = [f.key for f in RULES[rid](c).findings]
+                    except Exception as e:  # a crashing rule is a broken check, report it as such
+                        memo[rid] = ["%s|<crash>|%s: %s" % (rid, type(e).__name__, str(e)[:120])]
+                ks.extend(memo[rid])
+            nk = [k for k in ks if k not in base_keys_by_prop.get(prop, set())]
+            if nk:
+                new[prop] = nk
+        return {"new": new}
+    finally:
+        shutil.rmtree(d, ignore_errors=True)
+
+
 def run(ctx, prop, pdef, results, extra, broken):
     broken.extend(second_config(ctx, prop, pdef, results, extra))
     if prop in ("C03", "C07"):
